@@ -238,7 +238,14 @@ fn gen_op(t: &mut Tape, kinds: &mut [Kind; 4]) -> Stmt {
             let j = gen_index(t, 2);
             Stmt::Block(vec![let_("tmp", index(ident(v), i)), es(assign(ident("r"), calln("lees", vec![ident("tmp"), j])))])
         }
-        _ => es(calln("print", vec![string("{} {}"), calln("lengte", vec![ident(v)]), calln("type", vec![ident(v)])])),
+        _ => {
+            if t.maybe(100) {
+                // the value as text: a list shows every element in full, also a list that occurs in it more than once
+                // (a null or a function inside makes the text unspecified, U12: such sequences are not judged)
+                return es(calln("print", vec![string("{}"), ident(v)]));
+            }
+            es(calln("print", vec![string("{} {}"), calln("lengte", vec![ident(v)]), calln("type", vec![ident(v)])]))
+        }
     }
 }
 
